@@ -27,3 +27,27 @@ package internal
 //@   requires 0 <= start1 && start1 + 1 < len(coords1) && 0 <= start2 && start2 + 1 < len(coords2)
 //@   ensures res <==> (coords1[start1] == coords2[start2] && coords1[start1+1] == coords2[start2+1])
 //@   modifies nothing
+
+// C13: the coordinate stack copies whole coordinates that exist in its argument (the slice may not reach into
+// spare capacity) and never reads below its own bottom
+//@ func NewCoordStack
+//@   ensures fresh(res) && res.stride == strideOf(layout) && res.Data == nil
+//@   modifies nothing
+
+//@ func CoordStack.Push
+//@   requires stack.stride >= 0 && 0 <= idx && idx + stack.stride <= len(data)
+//@   ensures len(stack.Data) == old(len(stack.Data)) + stack.stride && stack.stride == old(stack.stride)
+//@   ensures fresh(stack.Data) || (base(stack.Data) == old(base(stack.Data)) && off(stack.Data) == old(off(stack.Data)) && cap(stack.Data) == old(cap(stack.Data)))
+//@   modifies *stack, spare(stack.Data)
+
+//@ func CoordStack.Pop
+//@   requires stack.stride >= 1 && len(stack.Data) >= stack.stride
+//@   ensures len(stack.Data) == old(len(stack.Data)) - stack.stride && stack.stride == old(stack.stride) && len(res1) == stack.stride
+//@   ensures base(stack.Data) == old(base(stack.Data)) && off(stack.Data) == old(off(stack.Data)) && cap(stack.Data) == old(cap(stack.Data))
+//@   ensures base(res1) == old(base(stack.Data)) && (res2 > 0 <==> len(stack.Data) >= stack.stride)
+//@   modifies *stack
+
+//@ func CoordStack.Peek
+//@   requires stack.stride >= 0 && len(stack.Data) >= stack.stride
+//@   ensures len(res) == stack.stride
+//@   modifies nothing
